@@ -191,6 +191,16 @@ func c15Alphabet() []string {
 			}
 		}
 	}
+	// entries that already ARE (or only look like) the hardened assignment: the exact one, the
+	// same under another spelling of the key, the right key with the value in another case
+	otherCase := map[string]string{"CGO_ENABLED": "0", "GOPROXY": "OFF", "GOFLAGS": "-MOD=ReadOnly", "GOWORK": "Off", "GOTOOLCHAIN": "LOCAL"}
+	for _, k := range keys[:5] {
+		al = append(al, k+"="+c15Want[k], strings.ToLower(k)+"="+c15Want[k])
+		if otherCase[k] != c15Want[k] {
+			al = append(al, k+"="+otherCase[k])
+		}
+	}
+	al = append(al, "GOWOR\u212a=off", "GOFLAG\u017f=-mod=readonly")
 	// look-alikes that must pass through, and unrelated variables
 	al = append(al, "GOPROXYX=https://x", "XGOPROXY=1", "CGO_ENABLED_X=1", "GOFLAGSS=-mod=mod", "GOTOOLCHAIN_=auto", "GO=1",
 		"HOME=/nonexistent", "PATH=/usr/bin", "LANG=C", "EMPTY=", "A=b=c",
